@@ -179,6 +179,24 @@ def check_data(datas, E, N, cfg, acc, only_call=None, only_commons=None):
             acc.case((tuple(datas), cs, agg, ignore, ws, fs), nontrivial=nt and any(c in set(t) for c, t in zip(cs, datas)),
                      outcome=(agg, ignore, int(emiss.sum()) > 0, int((~emiss).sum()) > 0),
                      sample=lambda: dict(base_case, commons=list(cs)))
+        # one cube object asked again after each in-place change of its first dimension (a cube holds its dimensions, not a snapshot)
+        if D >= 1 and N >= 1 and only_commons is None:
+            cs0 = commons_list[(hash((agg, ignore, "held")) % len(commons_list))]
+            hdims = [M.build_index(d, c) for d, c in zip(denses, cs0)]
+            try:
+                held = ccube(hdims, interacting_shape=shape)
+                f2, _, _, _, w2, _, _ = realise(N, ws, fs)
+                Q.call_cube(held, agg, f2, w2, ignore, Q.PAIR)
+                for label, apply, nd in Q.in_place_changes(hdims, denses):
+                    if any(int(x) > E for x in nd[0].flat):
+                        break
+                    apply()
+                    cells2 = M.cell_rows(nd, shape, N)
+                    ev4, em4 = Q.oracle(agg, cells2, shape, N, K, x, valid, w, wok, ignore)
+                    run("ccube", lambda f2, w2: Q.call_cube(held, agg, f2, w2, ignore, Q.PAIR), ev4, em4, {"commons": list(cs0), "variant": "same cube after " + label})
+                    acc.count("ccube_evals")
+            except Exception as e:  # noqa
+                acc.violation("ccube:%s:raised" % agg, dict(base_case, commons=list(cs0), variant="same cube after an in-place change"), repr(e))
         # inferred ccube shape for one encoding per call (shape inference is orthogonal to the aggregate)
         cs = commons_list[(hash((agg, ignore)) % len(commons_list))]
         dims = dims_by_commons[cs]
@@ -602,7 +620,7 @@ def replay(case, site=None):
         check_zero(case["N"], cfg, acc, only_call=call)
     else:
         datas = [tuple(t) for t in case["data"]]
-        check_data(datas, case["E"], len(datas[0]), cfg, acc, only_call=call, only_commons=case.get("commons"))
+        check_data(datas, case["E"], len(datas[0]), cfg, acc, only_call=call, only_commons=None if str(case.get("variant", "")).startswith("same cube") else case.get("commons"))
     for v in acc.violations:
         print("  %s %s :: %s" % (v["site"], {k: v["case"].get(k) for k in ("variant", "commons")}, v["detail"][:700]))
     return bool(acc.violations)
